@@ -88,6 +88,16 @@ impl Ctx {
     pub fn env(&self, reg: &str) -> Option<Envelope> { self.m.env(reg) }
     pub fn is_ok(&self, reg: &str) -> bool { matches!(self.m.regs.get(reg), Some(Val::Env(_))) }
 
+    /// the operation whose result is in `reg` is the one the property is about: a panic there means there is no result at
+    /// all for an input in the property's scope
+    pub fn no_panic(&mut self, reg: &str, what: &str) {
+        if let Val::Panic(site) = self.val(reg) {
+            let (scen, w) = (self.scenario.clone(), what.to_string());
+            self.count("oracle:operation-under-test-returns");
+            self.oracles.push(OracleRec { scenario: scen, name: "operation-under-test-returns".into(), pass: false, key: format!("{}-panicked", w), detail: format!("{} panicked at {} (register {})", w, site, reg) });
+        }
+    }
+
     /// record an implementation-side oracle verdict
     pub fn check(&mut self, name: &str, pass: bool, key: &str, detail: impl FnOnce() -> String) {
         self.count(&format!("oracle:{}", name));
